@@ -48,8 +48,8 @@ theorem graphOf_callsOk {c : ProgCert} (hcl : certClosed c = true) {r : RId} {G 
     obtain ⟨k', hk'⟩ := lookup_mem _ _ _ hl
     exact hcl.2 _ hk'
 
-theorem callPresent_of_cert {version : Nat} {p : Prog} {c : ProgCert} (cx : Ctx) (hcl : certClosed c = true) :
-    CallPresent ⟨cx, p, c.prog, version⟩ := by
+theorem callPresent_of_cert {version : Nat} {fp dyn : Bool} {p : Prog} {c : ProgCert} (cx : Ctx)
+    (hcl : certClosed c = true) : CallPresent ⟨cx, p, c.prog, version, fp, dyn⟩ := by
   intro X cfg K cur hR f ce cb k _ hb
   have hG := X.hG
   rw [hR.pg] at hG
@@ -62,17 +62,27 @@ theorem callPresent_of_cert {version : Nat} {p : Prog} {c : ProgCert} (cx : Ctx)
     simp
   exact hblk _ hmem
 
-theorem progOK_of_cert {version : Nat} {p : Prog} {c : ProgCert} (cx : Ctx)
-    (hf : fragmentOnCert p c = true) (hs : certSubsOk version p c = true) :
-    ProgOK ⟨cx, p, c.prog, version⟩ := by
+/-- the per-routine part of `fragmentOnCert` -/
+theorem subOkC_of_cert {fp dyn : Bool} {p : Prog} {c : ProgCert} (hf : fragmentOnCert fp p c dyn = true)
+    {f : Nat} {sd : SubDef} (hsd : findSub p f = some sd) (hpres : (c.prog.subs.lookup (subLabel f)).isSome = true) :
+    subOkC fp p sd dyn = true := by
+  have hmem : sd ∈ p.subs := List.mem_of_find?_eq_some hsd
+  have hid : sd.id = f := findSub_id hsd
+  simp only [fragmentOnCert, Bool.and_eq_true, List.all_eq_true, Bool.or_eq_true, Bool.not_eq_true'] at hf
+  rcases hf.1.2 sd hmem with h | h
+  · simp only [certHas, hid] at h; rw [h] at hpres; cases hpres
+  · exact h
+
+theorem progOK_of_cert {version : Nat} {fp dyn : Bool} {p : Prog} {c : ProgCert} (cx : Ctx)
+    (hf : fragmentOnCert fp p c dyn = true) (hs : certSubsOk version fp p c = true) :
+    ProgOK ⟨cx, p, c.prog, version, fp, dyn⟩ := by
   intro f sd hsd hpres
   have hmem : sd ∈ p.subs := List.mem_of_find?_eq_some hsd
-  have hid : sd.id = f := by
-    have := List.find?_some hsd
-    simpa using this
+  have hid : sd.id = f := findSub_id hsd
   simp only [certSubsOk, List.all_eq_true] at hs
   have h1 := hs sd hmem
   rw [hid] at h1
+  have hso := subOkC_of_cert hf hsd hpres
   simp only [Present] at hpres
   cases hl : c.prog.subs.lookup (subLabel f) with
   | none => rw [hl] at hpres; cases hpres
@@ -80,60 +90,75 @@ theorem progOK_of_cert {version : Nat} {p : Prog} {c : ProgCert} (cx : Ctx)
     obtain ⟨G, s⟩ := e
     rw [hl] at h1
     simp only [] at h1
-    cases hr : genSub version false false p sd (spillSlots sd) with
+    cases hr : genSub version fp false p sd (spillSlotsC fp sd) with
     | error e => rw [hr] at h1; cases h1
     | ok r =>
       rw [hr] at h1
       simp only [Bool.and_eq_true, decide_eq_true_eq, beq_iff_eq] at h1
       obtain ⟨rfl, rfl⟩ := h1
-      simp only [fragmentOnCert, Bool.and_eq_true, List.all_eq_true, Bool.or_eq_true, Bool.not_eq_true'] at hf
-      have hso : subOk p sd = true := by
-        rcases hf.2 sd hmem with h | h
-        · rw [hid, hl] at h; cases h
-        · exact h
-      exact subOK_of_genSub (P := ⟨cx, p, c.prog, version⟩) hr hl hso
+      exact subOK_of_genSub (P := ⟨cx, p, c.prog, version, fp, dyn⟩) hr hl hmem hso
 
-/-- **Composition for programs with subroutine calls.**  Whenever the source run of the (renamed)
-    program terminates, the real TEAL terminates with the same verdict and return value and a
-    final world equal up to the representation of the scratch space; the only permitted deviation
-    is the AVM's 1000-deep operand stack.  When the source run fails, the TEAL fails. -/
-theorem compile_correct_validated_prog (version : Nat) (p : Prog) (P : Program) (c : ProgCert)
-    (h : composedOk version p P c = true) (cx : Ctx) (w0 : World) (fuel : Nat) :
+theorem callInv_of_cert {version : Nat} {fp : Bool} {p : Prog} {c : ProgCert} (cx : Ctx)
+    (hf : fragmentOnCert fp p c = true) : CallInv ⟨cx, p, c.prog, version, fp, false⟩ := by
+  cases fp with
+  | false => exact callInv_scratch rfl
+  | true =>
+    have hf' := hf
+    simp only [fragmentOnCert, Bool.and_eq_true, List.all_eq_true, Bool.or_eq_true, Bool.not_eq_true',
+      Bool.not_true, Bool.false_or] at hf'
+    obtain ⟨_, hpnd, hreach⟩ := hf'
+    refine callInv_fp_of (P := ⟨cx, p, c.prog, version, true, false⟩) rfl rfl hpnd
+      (fun f sd hsd hpres => subOkC_of_cert hf hsd hpres) ?_
+    intro f0 sd0 hsd0 hpres0 g hg hre h hh
+    have hmem0 : sd0 ∈ p.subs := List.mem_of_find?_eq_some hsd0
+    have hid0 : sd0.id = f0 := findSub_id hsd0
+    rcases hreach sd0 hmem0 with h1 | h1
+    · simp only [certHas, hid0] at h1
+      simp only [Present] at hpres0
+      rw [h1] at hpres0; cases hpres0
+    · rcases h1 g hg with h2 | h2
+      · rw [hre] at h2; cases h2
+      · exact h2 h hh
+
+/-- the generator facts about the main graph of the certificate -/
+theorem main_of_cert {version : Nat} {p : Prog} {c : ProgCert} (hm : certMainOk version p c = true) :
+    c.prog.main[0]? = some ({} : Block) ∧
+      ShapeR c.prog.main { version := version, inSub := false, callees := calleesOf p, markIndex := false }
+        (if hasReturn p.main then p.main else .ret (some p.main)) c.prog.start 0 none := by
+  simp only [certMainOk] at hm
+  cases hr : genMainR version false p with
+  | error e => rw [hr] at hm; cases hm
+  | ok r =>
+    rw [hr] at hm
+    simp only [Bool.and_eq_true, decide_eq_true_eq, beq_iff_eq] at hm
+    have := genMainR_spec hr
+    rw [hm.1, hm.2] at this
+    exact this
+
+/-- transfer from the graph machine on the certificate's program to the AVM on the real TEAL -/
+theorem to_avm {D : Fail → Prop} {I : List Nat} {cx : Ctx} {p : Prog} {P : Program} {c : ProgCert} {w0 : World}
+    {fuel : Nat} (hk : checkCert P c = true)
+    (key : match Src.runProg cx p fuel w0 with
+      | .done v w => ∃ n, (∃ w'', SameW I w w'' ∧ runP cx c.prog n { world := w0 } = .done v w'')
+                      ∨ ∃ f, D f ∧ runP cx c.prog n { world := w0 } = .fail f
+      | .fail (.unmodelled _) => True
+      | .fail _ => ∃ n f, runP cx c.prog n { world := w0 } = .fail f
+      | .outOfFuel => True) :
     match Src.runProg cx p fuel w0 with
-    | .done v w => ∃ n, (∃ w', SameW w w' ∧ Avm.run cx P n w0 = .done v w')
-                    ∨ Avm.run cx P n w0 = .fail (.logic "stack overflow")
+    | .done v w => ∃ n, (∃ w', SameW I w w' ∧ Avm.run cx P n w0 = .done v w')
+                    ∨ ∃ f, D f ∧ Avm.run cx P n w0 = .fail f
     | .fail (.unmodelled _) => True
     | .fail _ => ∃ n f, Avm.run cx P n w0 = .fail f
     | .outOfFuel => True := by
-  simp only [composedOk, Bool.and_eq_true] at h
-  obtain ⟨⟨⟨⟨hf, hm⟩, hs⟩, hcl⟩, hk⟩ := h
-  have hwm : mainOk p = true := by
-    simp only [fragmentOnCert, Bool.and_eq_true] at hf
-    exact hf.1
-  have hmain : c.prog.main[0]? = some ({} : Block) ∧
-      ShapeR c.prog.main { version := version, inSub := false, callees := calleesOf p, markIndex := false }
-        (if hasReturn p.main then p.main else .ret (some p.main)) c.prog.start 0 none := by
-    simp only [certMainOk] at hm
-    cases hr : genMainR version false p with
-    | error e => rw [hr] at hm; cases hm
-    | ok r =>
-      rw [hr] at hm
-      simp only [Bool.and_eq_true, decide_eq_true_eq, beq_iff_eq] at hm
-      have := genMainR_spec hr
-      rw [hm.1, hm.2] at this
-      exact this
-  rcases hev : eval ⟨cx, p, none⟩ fuel p.main w0 with ⟨r, w'⟩
-  have key := runProg_of_final hev
-    (main_graph_of cx (progOK_of_cert cx hf hs) (callPresent_of_cert cx hcl) hmain hwm w0 fuel hev)
   revert key
   cases hr : Src.runProg cx p fuel w0 with
   | done v w =>
     intro key
-    obtain ⟨n, ⟨w'', hw, hrun⟩ | hrun⟩ := key
+    obtain ⟨n, ⟨w'', hw, hrun⟩ | ⟨f, hd, hrun⟩⟩ := key
     · obtain ⟨n', hn'⟩ := simR_sound_forward P c hk cx { world := w0 } n _ hrun (by simp)
       exact ⟨n', .inl ⟨w'', hw, hn'⟩⟩
     · obtain ⟨n', hn'⟩ := simR_sound_forward P c hk cx { world := w0 } n _ hrun (by simp)
-      exact ⟨n', .inr hn'⟩
+      exact ⟨n', .inr ⟨f, hd, hn'⟩⟩
   | fail f =>
     intro key
     cases f with
@@ -144,47 +169,108 @@ theorem compile_correct_validated_prog (version : Nat) (p : Prog) (P : Program) 
       exact ⟨n', f', hn'⟩
   | outOfFuel => intro _; trivial
 
+/-- **Composition for programs with subroutine calls** (both calling conventions).  Whenever the
+    source run of the (renamed) program terminates, the real TEAL terminates with the same verdict
+    and return value and a final world equal up to the representation of the scratch space — and,
+    under the frame-pointer convention, up to the parameter slots (`ignOf fp p`); the only permitted
+    deviation is the AVM's 1000-deep operand stack.  When the source run fails, the TEAL fails. -/
+theorem compile_correct_validated_prog (version : Nat) (fp : Bool) (p : Prog) (P : Program) (c : ProgCert)
+    (h : composedOk version fp p P c = true) (cx : Ctx) (w0 : World) (fuel : Nat) :
+    match Src.runProg cx p fuel w0 with
+    | .done v w => ∃ n, (∃ w', SameW (ignOf fp p) w w' ∧ Avm.run cx P n w0 = .done v w')
+                    ∨ Avm.run cx P n w0 = .fail (.logic "stack overflow")
+    | .fail (.unmodelled _) => True
+    | .fail _ => ∃ n f, Avm.run cx P n w0 = .fail f
+    | .outOfFuel => True := by
+  simp only [composedOk, Bool.and_eq_true] at h
+  obtain ⟨⟨⟨⟨hf, hm⟩, hs⟩, hcl⟩, hk⟩ := h
+  have hwm : mainOkC fp p false = true := by
+    simp only [fragmentOnCert, Bool.and_eq_true] at hf
+    exact hf.1.1
+  have key := to_avm hk (genProg_correct_of ⟨cx, p, c.prog, version, fp, false⟩ (progOK_of_cert cx hf hs)
+    (callPresent_of_cert cx hcl) (callInv_of_cert cx hf) (main_of_cert hm) hwm w0 fuel)
+  revert key
+  cases Src.runProg cx p fuel w0 with
+  | done v w =>
+    intro ⟨n, h⟩
+    exact ⟨n, h.imp id (fun ⟨f, hf', hr⟩ => by rw [hr, hf']; rfl)⟩
+  | fail f => cases f <;> (intro key; exact key)
+  | outOfFuel => intro _; trivial
+
+/-- **Composition with run-time addressed slots (stage 3, scratch-slot convention) — PARTIAL**: as
+    `C02Gen.genProg_correct_dyn_partial`, the range check of the generated `loads` / `stores` is a
+    permitted deviation. -/
+theorem compile_correct_validated_prog_dyn_partial (version : Nat) (p : Prog) (P : Program) (c : ProgCert)
+    (h : composedOk version false p P c true = true) (cx : Ctx) (w0 : World) (fuel : Nat) :
+    match Src.runProg cx p fuel w0 with
+    | .done v w => ∃ n, (∃ w', SameW [] w w' ∧ Avm.run cx P n w0 = .done v w')
+                    ∨ Avm.run cx P n w0 = .fail (.logic "stack overflow")
+                    ∨ Avm.run cx P n w0 = .fail (.logic "loads slot out of range")
+                    ∨ Avm.run cx P n w0 = .fail (.logic "stores slot out of range")
+    | .fail (.unmodelled _) => True
+    | .fail _ => ∃ n f, Avm.run cx P n w0 = .fail f
+    | .outOfFuel => True := by
+  simp only [composedOk, Bool.and_eq_true] at h
+  obtain ⟨⟨⟨⟨hf, hm⟩, hs⟩, hcl⟩, hk⟩ := h
+  have hwm : mainOkC false p true = true := by
+    simp only [fragmentOnCert, Bool.and_eq_true] at hf
+    exact hf.1.1
+  have key := to_avm hk (genProg_correct_of ⟨cx, p, c.prog, version, false, true⟩ (progOK_of_cert cx hf hs)
+    (callPresent_of_cert cx hcl) (callInv_scratch rfl) (main_of_cert hm) hwm w0 fuel)
+  revert key
+  cases Src.runProg cx p fuel w0 with
+  | done v w =>
+    intro ⟨n, h⟩
+    refine ⟨n, h.imp id (fun ⟨f, hf', hr⟩ => ?_)⟩
+    rcases hf' with rfl | rfl | rfl
+    · exact .inl hr
+    · exact .inr (.inl hr)
+    · exact .inr (.inr hr)
+  | fail f => cases f <;> (intro key; exact key)
+  | outOfFuel => intro _; trivial
+
 /-- the form the driver evaluates: `validateComposed` answers `true` -/
-theorem compile_correct_validateComposed (version : Nat) (p0 : Prog) (P : Program)
-    (h : validateComposed version p0 P = .ok true) :
-    ∃ p c, renamedProg version false p0 P = .ok p ∧ composedOk version p P c = true ∧
+theorem compile_correct_validateComposed (version : Nat) (fp : Bool) (p0 : Prog) (P : Program)
+    (h : validateComposed version fp p0 P = .ok true) :
+    ∃ p c, renamedProg version fp p0 P = .ok p ∧ composedOk version fp p P c = true ∧
       ∀ (cx : Ctx) (w0 : World) (fuel : Nat),
         match Src.runProg cx p fuel w0 with
-        | .done v w => ∃ n, (∃ w', SameW w w' ∧ Avm.run cx P n w0 = .done v w')
+        | .done v w => ∃ n, (∃ w', SameW (ignOf fp p) w w' ∧ Avm.run cx P n w0 = .done v w')
                         ∨ Avm.run cx P n w0 = .fail (.logic "stack overflow")
         | .fail (.unmodelled _) => True
         | .fail _ => ∃ n f, Avm.run cx P n w0 = .fail f
         | .outOfFuel => True := by
   unfold validateComposed at h
-  cases hp : renamedProg version false p0 P with
+  cases hp : renamedProg version fp p0 P with
   | error e => rw [hp] at h; cases h
   | ok p =>
     rw [hp] at h
-    cases hc : validateProgCert version false p0 P with
+    cases hc : validateProgCert version fp p0 P with
     | error e => rw [hc] at h; cases h
     | ok cv =>
       obtain ⟨c, v⟩ := cv
       rw [hc] at h
       simp only [bind, Except.bind, pure, Except.pure, Except.ok.injEq] at h
-      exact ⟨p, c, rfl, h, fun cx w0 fuel => compile_correct_validated_prog version p P c h cx w0 fuel⟩
+      exact ⟨p, c, rfl, h, fun cx w0 fuel => compile_correct_validated_prog version fp p P c h cx w0 fuel⟩
 
-theorem compile_correct_composedB (version : Nat) (p0 : Prog) (P : Program) (h : composedB version p0 P = true) :
-    ∃ p, renamedProg version false p0 P = .ok p ∧
+theorem compile_correct_composedB (version : Nat) (fp : Bool) (p0 : Prog) (P : Program)
+    (h : composedB version fp p0 P = true) :
+    ∃ p, renamedProg version fp p0 P = .ok p ∧
       ∀ (cx : Ctx) (w0 : World) (fuel : Nat),
         match Src.runProg cx p fuel w0 with
-        | .done v w => ∃ n, (∃ w', SameW w w' ∧ Avm.run cx P n w0 = .done v w')
+        | .done v w => ∃ n, (∃ w', SameW (ignOf fp p) w w' ∧ Avm.run cx P n w0 = .done v w')
                         ∨ Avm.run cx P n w0 = .fail (.logic "stack overflow")
         | .fail (.unmodelled _) => True
         | .fail _ => ∃ n f, Avm.run cx P n w0 = .fail f
         | .outOfFuel => True := by
   unfold composedB at h
-  cases hv : validateComposed version p0 P with
+  cases hv : validateComposed version fp p0 P with
   | error e => rw [hv] at h; cases h
   | ok b =>
     rw [hv] at h
     simp only [] at h
     subst h
-    obtain ⟨p, c, hp, _, hall⟩ := compile_correct_validateComposed version p0 P hv
+    obtain ⟨p, c, hp, _, hall⟩ := compile_correct_validateComposed version fp p0 P hv
     exact ⟨p, hp, hall⟩
 
 /-! ### Non-vacuity: real compiler output (PyTeal, version 6, `compileTeal` of the two programs of
@@ -213,7 +299,7 @@ def exTeal : Program := #[
   ⟨⟨"retsub", []⟩, .retsub⟩]
 
 set_option maxRecDepth 100000 in
-theorem exTeal_composed : composedB 6 exProg0 exTeal = true := by decide +kernel
+theorem exTeal_composed : composedB 6 false exProg0 exTeal = true := by decide +kernel
 
 /-- recursive factorial with a local live across the re-entrant call (spill code `uncover 2` /
     `cover 2` in the real TEAL) -/
@@ -256,23 +342,66 @@ def factTeal : Program := #[
   ⟨⟨"retsub", []⟩, .retsub⟩]
 
 set_option maxRecDepth 100000 in
-theorem factTeal_composed : composedB 6 factProg0 factTeal = true := by decide +kernel
+theorem factTeal_composed : composedB 6 false factProg0 factTeal = true := by decide +kernel
 
 /-- hence the real TEAL computes what the (renamed) programs denote, on every context and world,
     without running it -/
 example : ∃ p, renamedProg 6 false factProg0 factTeal = .ok p ∧
     ∀ (cx : Ctx) (w0 : World) (fuel : Nat),
       match Src.runProg cx p fuel w0 with
-      | .done v w => ∃ n, (∃ w', SameW w w' ∧ Avm.run cx factTeal n w0 = .done v w')
+      | .done v w => ∃ n, (∃ w', SameW (ignOf false p) w w' ∧ Avm.run cx factTeal n w0 = .done v w')
                       ∨ Avm.run cx factTeal n w0 = .fail (.logic "stack overflow")
       | .fail (.unmodelled _) => True
       | .fail _ => ∃ n f, Avm.run cx factTeal n w0 = .fail f
       | .outOfFuel => True :=
-  compile_correct_composedB 6 factProg0 factTeal factTeal_composed
+  compile_correct_composedB 6 false factProg0 factTeal factTeal_composed
 
 /-- the link checks bite: the same TEAL against a program whose routine subtracts the other way
     round is rejected -/
-example : composedB 6 { exProg0 with subs := exProg0.subs.map (fun sd =>
+example : composedB 6 false { exProg0 with subs := exProg0.subs.map (fun sd =>
     { sd with body := .prim "-" [] [.load 257, .load 256] }) } exTeal = false := by decide +kernel
+
+/-- the same recursive factorial compiled by PyTeal for version 8 (frame-pointer convention:
+    `proto 1 1`, the parameter is read with `frame_dig -1`, only the local `m` is spilled) -/
+def fact8Teal : Program := #[
+  ⟨⟨"#pragma", ["version", "8"]⟩, .pragma "version" "8"⟩,
+  ⟨⟨"int", ["5"]⟩, .pushInt 5⟩,
+  ⟨⟨"callsub", ["fact_0"]⟩, .callsub "fact_0"⟩,
+  ⟨⟨"return", []⟩, .ret⟩,
+  ⟨⟨"fact_0:", []⟩, .label "fact_0"⟩,
+  ⟨⟨"proto", ["1", "1"]⟩, .proto 1 1⟩,
+  ⟨⟨"frame_dig", ["-1"]⟩, .frameDig (-1)⟩,
+  ⟨⟨"store", ["0"]⟩, .store 0⟩,
+  ⟨⟨"frame_dig", ["-1"]⟩, .frameDig (-1)⟩,
+  ⟨⟨"int", ["0"]⟩, .pushInt 0⟩,
+  ⟨⟨"==", []⟩, .prim "==" []⟩,
+  ⟨⟨"bz", ["fact_0_l2"]⟩, .bz "fact_0_l2"⟩,
+  ⟨⟨"int", ["1"]⟩, .pushInt 1⟩,
+  ⟨⟨"retsub", []⟩, .retsub⟩,
+  ⟨⟨"fact_0_l2:", []⟩, .label "fact_0_l2"⟩,
+  ⟨⟨"frame_dig", ["-1"]⟩, .frameDig (-1)⟩,
+  ⟨⟨"int", ["1"]⟩, .pushInt 1⟩,
+  ⟨⟨"-", []⟩, .prim "-" []⟩,
+  ⟨⟨"load", ["0"]⟩, .load 0⟩,
+  ⟨⟨"swap", []⟩, .prim "swap" []⟩,
+  ⟨⟨"callsub", ["fact_0"]⟩, .callsub "fact_0"⟩,
+  ⟨⟨"swap", []⟩, .prim "swap" []⟩,
+  ⟨⟨"store", ["0"]⟩, .store 0⟩,
+  ⟨⟨"load", ["0"]⟩, .load 0⟩,
+  ⟨⟨"*", []⟩, .prim "*" []⟩,
+  ⟨⟨"retsub", []⟩, .retsub⟩]
+
+set_option maxRecDepth 100000 in
+theorem fact8Teal_composed : composedB 8 true factProg0 fact8Teal = true := by decide +kernel
+
+example : ∃ p, renamedProg 8 true factProg0 fact8Teal = .ok p ∧
+    ∀ (cx : Ctx) (w0 : World) (fuel : Nat),
+      match Src.runProg cx p fuel w0 with
+      | .done v w => ∃ n, (∃ w', SameW (ignOf true p) w w' ∧ Avm.run cx fact8Teal n w0 = .done v w')
+                      ∨ Avm.run cx fact8Teal n w0 = .fail (.logic "stack overflow")
+      | .fail (.unmodelled _) => True
+      | .fail _ => ∃ n f, Avm.run cx fact8Teal n w0 = .fail f
+      | .outOfFuel => True :=
+  compile_correct_composedB 8 true factProg0 fact8Teal fact8Teal_composed
 
 end PyTealV.Proofs.C02Compile
